@@ -16,7 +16,7 @@ RULE = ('workbooks with 1-4 sheets (titles with blanks, digits, non-ASCII), 1-6 
         'immediately followed by a parenthesised argument list, in constants and inside formulas, one or two fragments per '
         'cell) and 0-20 innocent cells (upper-case Excel calls, text with a blank before the bracket, numbers, dates) at random '
         '(sheet, column <= AAA, row <= 2000) - in particular row != position within its row; half of the suspicious texts repeated in '
-        'the same row / same column / same address of another sheet; gate enabled and disabled; plus '
+        'the same row / same column / same address of another sheet; gate enabled and disabled on fresh parsers and toggled disabled -> enabled -> disabled on ONE parser; plus '
         'all-innocent workbooks. Non-trivial: a planted suspicious cell whose row differs from its 1-based position in the '
         'row and from 1; distinct by (workbook index, cell)')
 ASSUMPTIONS = ['cells mixing upper-case calls and lower-case calls in one text are not generated (outside the precondition)',
@@ -111,8 +111,21 @@ def observe(spec, path_dir, name):
     os.makedirs(path_dir, exist_ok=True)
     path = os.path.join(path_dir, name + '.xlsx')
     wbspec.write(spec, path)
-    on = pipeline.translate(path, safety=True)
-    off = pipeline.translate(path, safety=False)
+    if hash(name) % 2 == 0:
+        on = pipeline.translate(path, safety=True)
+        off = pipeline.translate(path, safety=False)
+    else:
+        # the same Parser object: first with the gate disabled, then enabled (no other setter in between), then disabled again -
+        # the gate has to follow the switch, not the moment the workbook was first read
+        p = pipeline.make_parser(path, safety=False)
+        off = pipeline.guarded(lambda: p.get_translation(), 'translate')
+        p.enable_safety_check()
+        on = pipeline.guarded(lambda: p.get_translation(), 'translate')
+        on.second = pipeline.guarded(lambda: p.get_translation(), 'translate') if on.kind == pipeline.LIB_EXC else None
+        p.disable_safety_check()
+        off2 = pipeline.guarded(lambda: p.get_translation(), 'translate')
+        if off.ok and not (off2.ok and off2.value == off.value):
+            off = off2
     return on, off, E2PyclSafetyException
 
 
@@ -141,6 +154,9 @@ def judge(r, spec, expected, planted, on, off, SafetyExc, idx):
         else:
             r.count('innocent_accepted')
         r.nt((idx, 'innocent'))
+    rep = pipeline.refusal_repeatable(on)
+    if rep:
+        report(r, ID, None, case, rep, 'the safety exception again', monitor='gate-repeatable')
     if off.kind == 'LIB_EXC' and isinstance(off.exc, SafetyExc):
         report(r, ID, None, case, off.brief(), 'no safety exception with the gate disabled', monitor='gate-disabled')
     else:
